@@ -1050,7 +1050,7 @@ class Event:
             file.write(f'{indent} loopcount "{self.loop_count}"\n')
         if isinstance(self, SpeakEvent):
             file.write(f'{indent} cctype "{CAPTION_TYPE_TO_NAME[self.caption_type]}"\n')
-            file.write(f'{indent} cctoken "{self.cc_token}"\n')
+            file.write(f'{indent} cctoken "{escape_text(self.cc_token)}"\n')
             if self.caption_type is not CaptionType.Disabled and self.use_combined_file:
                 file.write(f'{indent} cc_usingcombinedfile\n')
             if self.use_gender_token:
@@ -1351,7 +1351,7 @@ class Scene:
         if self.scale_settings:
             file.write('scalesettings\n{\n')
             for key, value in self.scale_settings.items():
-                file.write(f' "{key}" "{escape_text(value)}"\n')
+                file.write(f' "{escape_text(key)}" "{escape_text(value)}"\n')
             file.write('}\n')
 
         file.write(f'fps {self.fps}\n')
